@@ -11,8 +11,11 @@
 (*        rules) the interpreter stacks do not all behave alike            *)
 (*   fails-applicable : some interpreter failed on an applicable one       *)
 (*   returned : an interpreter returned a different conclusion             *)
+(*   calls : the primitive interpreter calls the real ProofThunk made in   *)
+(*        the proof phase are not ExprCalls(r) (ProofExpRun), the sequence *)
+(*        the model proves to be accepted by the machine                   *)
 (***************************************************************************)
-EXTENDS ProofExp, Json, IOUtils, TLCExt
+EXTENDS ProofExpRun, Json, IOUtils, TLCExt
 CONSTANTS BlockSize
 VARIABLE blk
 
@@ -29,6 +32,7 @@ CheckTrace(i) ==
        ELSE IF ~e.run THEN (IF oks # {} THEN "runs-inapplicable" ELSE "")
        ELSE IF oks # 1..Len(c.interps) THEN "fails-applicable"
        ELSE IF \E k \in oks : Len(c.interps[k].concs) # 1 \/ Expand(c.interps[k].concs[1]) # Expand(e.c) THEN "returned"
+       ELSE IF c.hascalls /\ c.calls # Methods(ExprCalls(c.r)) THEN "calls"
        ELSE ""
 INSTANCE TraceBlocks WITH NCases <- Len(Cases), Check <- CheckTrace
 =============================================================================
